@@ -137,6 +137,10 @@ func (o Options) DictLimit() uint64 {
 type Batch struct {
 	Signal string `json:"signal"`
 	Proto  []byte `json:"otlp_proto"`
+	// Synth describes a batch that is built instead of being stored (hand
+	// written regression cases whose protobuf form would be megabytes), see
+	// synth.go. Only used when Proto is empty.
+	Synth string `json:"synth,omitempty"`
 }
 
 // StreamCase is a stream history with the options of its producer.
@@ -180,6 +184,9 @@ func MetricsBatch(md pmetric.Metrics) Batch {
 
 // Decode parses the protobuf bytes.
 func (b Batch) Decode() (Input, error) {
+	if b.Synth != "" && len(b.Proto) == 0 {
+		return synthInput(b.Signal, b.Synth)
+	}
 	in := Input{Signal: b.Signal}
 	var err error
 	switch b.Signal {
